@@ -36,6 +36,10 @@ Definition eq_sched (a b : option (nat * nat)) : bool :=
 
 def make_tracing_semaphore(name, log):
     class TracingSemaphore(asyncio.Semaphore):
+        def __init__(self, value=1):
+            super().__init__(value)
+            self._limit = value
+
         async def acquire(self):
             r = await super().acquire()
             log.append((name, "acq", id(asyncio.current_task())))
@@ -44,6 +48,9 @@ def make_tracing_semaphore(name, log):
         def release(self):
             log.append((name, "rel", id(asyncio.current_task())))
             super().release()
+            if self._value > self._limit:
+                # released more often than acquired: from now on more than `limit` holders are admitted
+                log.append((name, "over", self._value))
     return TracingSemaphore
 
 
@@ -65,7 +72,14 @@ def gen_case(rng):
     npk = rng.choice([0, 0, 5, 140, 260])
     scn = big_scenario(rng, npk)
     scn.nthreads = rng.choice([1, 1, 2, 3, 4, 8])
-    return scn, {"seed": rng.getrandbits(32), "npk": npk, "faults": rng.random() < 0.4, "gate": rng.random() < 0.7}
+    case = {"seed": rng.getrandbits(32), "npk": npk, "faults": rng.random() < 0.4, "gate": rng.random() < 0.7, "giveup": None}
+    if rng.random() < 0.2:
+        # more repositories than slots, one of them never gets valid release files and gives up
+        scn = P.gen_scenario(rng, nrepos=rng.choice([4, 5, 6]), small=True)
+        scn.nthreads = rng.choice([1, 2, 3])
+        scn.retries = rng.choice([1, 2])
+        case.update({"npk": 0, "faults": False, "giveup": rng.randrange(len(scn.repos))})
+    return scn, case
 
 
 def run_case(rep, scn, case, sb, tag, rows):
@@ -76,6 +90,10 @@ def run_case(rep, scn, case, sb, tag, rows):
     log = []
     files = R.files_of(scn)
     plan = {}
+    if case.get("giveup") is not None:
+        u = scn.repos[case["giveup"]]["url"]
+        plan[u] = {p: {"first": [], "rest": "missing"} for p in files[u]
+                   if p.rsplit("/", 1)[-1] in ("InRelease", "Release", "Release.gpg") and p.count("/") == 2}
     if case["faults"]:
         plan = R.gen_fault_plan(rng, scn, files, density=3)
         for pl in plan.values():
@@ -98,6 +116,8 @@ def run_case(rep, scn, case, sb, tag, rows):
     holdR = holdD = maxR = maxD = 0
     pending = {}   # task -> transfer id awaiting its owner
     rtask_url = {}
+    over = [ev for ev in log if ev[1] == "over"]
+    log = [ev for ev in log if ev[1] != "over"]
     for ev in log:
         if ev[0] == "R":
             _, kind, task = ev
@@ -168,13 +188,19 @@ def run_case(rep, scn, case, sb, tag, rows):
     inflight = sum(1 for _ in [])  # transport-side counter, summed over repositories at each instant:
     cur = peak = 0
     # stream enter happens right after AcqD, exit right before RelD: the D trace is the in-flight trace
+    if over:
+        found = True
+        name = {"R": "repository", "D": "transfer"}[over[0][0]]
+        rep.violation(f"nthreads={n}, {len(scn.repos)} repositories: a {name} slot was released more often than acquired "
+                      f"({over[0][2]} free slots of {n}): more than nthreads {name} holders are admitted from then on",
+                      {"kind": "oracle", "tie": "sched", "case": jc}, tags={"oracle": "over_release"})
     if res.nonterminating:
         found = True
         started = sum(up.counts.get(p, 0) > 0 for up in res.ups.values() for p in up.files)
         rep.violation(f"nthreads={n}, {len(scn.repos)} repositories: the run never completes ({res.exc}); "
                       f"{started} of {sum(len(up.files) for up in res.ups.values())} upstream files were ever requested",
                       {"kind": "oracle", "tie": "sched", "case": jc}, tags={"oracle": "deadlock"})
-    elif not case["faults"] and res.code != 0:
+    elif not case["faults"] and case.get("giveup") is None and res.code != 0:
         found = True
         rep.violation(f"nthreads={n}: fault-free run exits {res.code} ({res.exc})",
                       {"kind": "oracle", "tie": "sched", "case": jc}, tags={"oracle": "terminates"})
